@@ -154,7 +154,13 @@ def run_one(tape, cfg):
     spec, req_json, request, rcfg = c01.gen_workload(tape, cfg)
     vals, calls, deps = gg.evaluate(spec)
     needed = gg.needed(spec, request, deps)
-    obs = sr.run_graph(tape, spec, request, rcfg)
+    # the caller's result store (cache=<mapping>), pre-seeded with values of some of the graph's literals
+    store = None
+    if tape.chance(1, 4, "preseeded_cache"):
+        store = {gg.K(n["key"]): vals[gg.K(n["key"])] for n in spec["nodes"]
+                 if n["kind"] == "data" and tape.chance(1, 2, "seedkey")}
+        out.probe("caller_cache_preseeded" if store else "caller_cache_empty")
+    obs = sr.run_graph(tape, spec, request, rcfg, extra_kw=None if store is None else {"cache": store})
     c01.base_outcome(out, obs, spec, req_json, rcfg, needed)
     if len(needed) < len(spec["nodes"]):
         out.probe("unneeded_present")
